@@ -277,6 +277,13 @@ def check_pair(a, b, ignored, form):
             out.append((kind, 'notebooks differ only in ignored categories %s but the diff is not empty: %r' % (sorted(ignored), pd[:1])))
     finally:
         nbd.reset_notebook_differ()
+    if form == 'config-mixed' and any(k == 'nonempty' for k, _ in out):
+        # cause analysis for the mixed configuration: the same pair with the same categories switched off by flags (everything really in
+        # force).  If the diff is non-empty there too, it is that cause (an alignment finding); if it is empty there, the mapping half of
+        # the configuration was not in force -- the recorded reset finding
+        ref = [k for k, _ in check_pair(a, b, ignored, 'negative') if k.startswith('nonempty')]
+        kind = ref[0] if ref else ('ignore-mapping-reset-by-config-boolean' if len(how['config NbDiff']) > 1 and how['by_map'] else 'nonempty')
+        out = [((kind, t) if k == 'nonempty' else (k, t)) for k, t in out]
     return out
 
 
